@@ -146,7 +146,7 @@ func (e *Encoder) writeObject(data interface{}) (int, error) {
 		e.nameMap[clsName] = clsName
 	}
 	var err error
-	length, ok := e.existClassDef(clsName)
+	length, ok := e.existClassDef(clsName, typ)
 	if !ok {
 		if length, err = e.writeClsDef(typ, clsName); err != nil {
 			return 0, err
@@ -197,13 +197,27 @@ func (e *Encoder) writeClsDef(typ reflect.Type, clsName string) (int, error) {
 	return length, nil
 }
 
-func (e *Encoder) existClassDef(clsName string) (int, bool) {
+// two Go struct types may share a class name (the name carries no package path): a definition is
+// reused only for a type with the same field list, another type of that name gets its own definition
+func (e *Encoder) existClassDef(clsName string, typ reflect.Type) (int, bool) {
 	for i := 0; i < len(e.clsDefList); i++ {
-		if strings.Compare(clsName, e.clsDefList[i].FullClassName) == 0 {
+		if strings.Compare(clsName, e.clsDefList[i].FullClassName) == 0 && sameFieldList(e.clsDefList[i].FieldName, typ) {
 			return i, true
 		}
 	}
 	return 0, false
+}
+
+func sameFieldList(fields []string, typ reflect.Type) bool {
+	if len(fields) != typ.NumField() {
+		return false
+	}
+	for i := range fields {
+		if name, _ := lowerName(typ.Field(i).Name); name != fields[i] {
+			return false
+		}
+	}
+	return true
 }
 
 func (d *Decoder) readClassDef() (interface{}, error) {
